@@ -2,6 +2,8 @@
 
 package statecache
 
+import lru "github.com/hashicorp/golang-lru"
+
 // VerifYield, when set by a verification harness, is called at every scheduling
 // point of the lock-free lookup path and of commit (before each access to the
 // shared cache maps), so that the harness scheduler can choose the interleaving.
@@ -10,5 +12,15 @@ var VerifYield func(site string)
 func verifYield(site string) {
 	if VerifYield != nil {
 		VerifYield(site)
+	}
+}
+
+// VerifPerKeyCap, when set by a verification harness, shrinks every newly created
+// per-key block map to that many entries, so that eviction is reachable in a few blocks.
+var VerifPerKeyCap int
+
+func verifPerKeyMap(c interface{}) {
+	if VerifPerKeyCap > 0 {
+		c.(*lru.Cache).Resize(VerifPerKeyCap)
 	}
 }
